@@ -202,6 +202,18 @@ def check_worklist(idx: Index, rep: Report) -> None:
     if not any(isinstance(t, ast.Compare) and isinstance(t.ops[0], ast.In) and pol and unparse(t.left) == item and attr_chain(t.comparators[0]) == "self._map" for t, pol in facts):
         if not any(isinstance(t, ast.Compare) and isinstance(t.ops[0], ast.NotIn) and not pol and unparse(t.left) == item for t, pol in facts) and not pop_default:
             bad.append(("guard", "remove must be guarded by `item in self._map`"))
+    # per path: the item leaves the stack (tombstone store or physical pop) iff its map entry is deleted
+    from ..paths import enum_paths
+
+    for pth in enum_paths(f.node):
+        if not pth.feasible():
+            continue
+        st_rm = [e_ for e_ in pth.effects if (isinstance(e_, ast.Assign) and isinstance(e_.targets[0], ast.Subscript) and attr_chain(e_.targets[0].value) == "self._stack") or (isinstance(e_, (ast.Expr, ast.Assign)) and isinstance(e_.value, ast.Call) and call_attr(e_.value) in ("pop", "remove") and attr_chain(e_.value.func.value) == "self._stack") or (isinstance(e_, ast.Delete) and any(isinstance(t_, ast.Subscript) and attr_chain(t_.value) == "self._stack" for t_ in e_.targets))]  # type: ignore[attr-defined]
+        mp_rm = [e_ for e_ in pth.effects if (isinstance(e_, ast.Delete) and any(isinstance(t_, ast.Subscript) and attr_chain(t_.value) == "self._map" for t_ in e_.targets)) or (isinstance(e_, (ast.Expr, ast.Assign)) and isinstance(e_.value, ast.Call) and call_attr(e_.value) == "pop" and attr_chain(e_.value.func.value) == "self._map")]  # type: ignore[attr-defined]
+        if bool(st_rm) != bool(mp_rm):
+            which = st_rm or mp_rm
+            bad.append(("pairing", f"the path under {sorted(pth.nfacts())[:3]} performs `{unparse(which[0])}` but " + ("keeps the map entry: the item is gone from the stack while `item in worklist._map` stays true with a stale index, so a later push of the item is ignored and a later remove tombstones another item's slot" if st_rm else "leaves the item on the stack")))
+            break
     if bad:
         for k, m in bad:
             r3.fail(inst, Finding("C12.R3", f.fq, k, m, f.loc))
@@ -620,6 +632,13 @@ def check_scoped_dict(idx: Index, rep: Report) -> None:
                         alias = lambda nm: nm == "self" or (len(reaching_defs(cfg, nm, nr)) == 1 and reaching_defs(cfg, nm, nr)[0][1] is not None and unparse(reaching_defs(cfg, nm, nr)[0][1]) == "self")
                         if not (alias(tested) and alias(read)):
                             bad.append(("scope-mismatch", f"membership is tested on `{tested}` but the value is read from `{read}`"))
+        # every enclosing scope is consulted: through delegation to the parent's own lookup, or a walk up the chain
+        direct_parent = [n for n in walk_local(f.node) if isinstance(n, ast.Attribute) and n.attr == "_local_scope" and attr_chain(n) == "self.parent._local_scope"]
+        if direct_parent:
+            walks = any(isinstance(s_, ast.Assign) and isinstance(s_.value, ast.Attribute) and s_.value.attr == "parent" and unparse(s_.targets[0]) == unparse(s_.value.value) for s_ in walk_local(f.node))
+            rec = any((isinstance(c_.func, ast.Attribute) and attr_chain(c_.func.value) == "self.parent" and c_.func.attr in ("get", "__getitem__", "__contains__")) for c_ in calls_in(f.node)) or any(isinstance(n_, ast.Subscript) and attr_chain(n_.value) == "self.parent" for n_ in walk_local(f.node)) or any(isinstance(n_, ast.Compare) and any(attr_chain(c_) == "self.parent" for c_ in n_.comparators) and isinstance(n_.ops[0], (ast.In, ast.NotIn)) for n_ in walk_local(f.node))
+            if not walks and not rec:
+                bad.append(("one-level-lookup", f"`{unparse(direct_parent[0])}` reads the parent's own bindings directly and nothing delegates to the parent's lookup or walks further up: a key bound only in a grandparent scope is not found by {meth} although the other lookup forms find it"))
         # parent consulted after local
         if bad:
             for kk, m in bad:
